@@ -1421,6 +1421,76 @@ func closedSetAsync(m *meta, rng *rand.Rand, round int) {
 	m.count("closed_setasync_rounds")
 }
 
+// massRemovalProbe (C06): thousands of removals staged in ONE shard before the listener gets to run (a single
+// Cleanup sweep over 6000 expired entries; 6000 Deletes while the listener is stalled): every one of them is reported,
+// exactly once, however long the backlog.
+func massRemovalProbe(m *meta, rng *rand.Rand, round int) {
+	pol := pick(rng, []kioshun.EvictionPolicy{kioshun.LRU, kioshun.FIFO, kioshun.SieveTinyLFU, kioshun.LFU})
+	stalled := (round/4)%2 == 0
+	ctx := fmt.Sprintf("mass removal round %d policy %v stalled-listener=%v", round, pol, stalled)
+	const n = 6000
+	gate := make(chan struct{})
+	var first atomic.Bool
+	first.Store(stalled)
+	var mu sync.Mutex
+	got := map[int]int{}
+	c, err := kioshun.New[int, int](kioshun.Config{ShardCount: 1, EvictionPolicy: pol, MaxSize: 0},
+		kioshun.WithOnRemove(func(k, v int, r kioshun.RemovalReason) {
+			if first.CompareAndSwap(true, false) {
+				<-gate
+			}
+			mu.Lock()
+			got[v]++
+			mu.Unlock()
+		}))
+	must(err)
+	defer c.Close()
+	watch(ctx)
+	defer unwatch()
+	if stalled {
+		c.Set(-1, -1, kioshun.NoExpiration)
+		c.Delete(-1) // the listener blocks on this one
+		for i := 0; i < n; i++ {
+			c.Set(i, i, kioshun.NoExpiration)
+		}
+		for i := 0; i < n; i++ {
+			c.Delete(i)
+		}
+		close(gate)
+	} else {
+		close(gate)
+		for i := 0; i < n; i++ {
+			c.Set(i, i, time.Microsecond)
+		}
+		time.Sleep(time.Millisecond)
+		c.Cleanup() // one sweep stages all of them under the shard lock
+	}
+	for t0 := time.Now(); time.Since(t0) < 3*time.Second; time.Sleep(500 * time.Microsecond) {
+		c.VerifFlushRemovals()
+		mu.Lock()
+		k := len(got)
+		mu.Unlock()
+		if k >= n {
+			break
+		}
+	}
+	mu.Lock()
+	missing, dup := 0, 0
+	for i := 0; i < n; i++ {
+		switch {
+		case got[i] == 0:
+			missing++
+		case got[i] > 1:
+			dup++
+		}
+	}
+	mu.Unlock()
+	if missing > 0 || dup > 0 {
+		m.violate("C06", fmt.Sprintf("%s: %d entries left one shard (%s); %d of them were never reported to the listener and %d were reported more than once", ctx, n, map[bool]string{true: "Delete while the listener was stalled", false: "one Cleanup sweep"}[stalled], missing, dup), ctx)
+	}
+	m.count("mass_removal_probes")
+}
+
 // deleteBehindQueue (C01, C04): a SetAsync(k,v2) that was accepted and is still queued (the drain token is busy), then
 // Delete(k): the Delete began after the SetAsync returned, so after Sync the key must be gone.
 func deleteBehindQueue(m *meta, rng *rand.Rand, round int) {
@@ -1875,6 +1945,7 @@ func streamConc(o opts) {
 			syncFence(m, rng, r)
 			closeNotify(m, rng, r)
 			backlogProbe(m, rng, r)
+			massRemovalProbe(m, rng, r)
 			statsRace(m, rng, r)
 			catchUpStats(m, rng, r)
 			cleanupRace(m, rng, r)
